@@ -21,7 +21,73 @@ ORI = 'spatialpandas.geometry._algorithms.orientation'
 B24 = 1 << 24
 
 
-def explore(polys, lead_rings=0, timeout=300, max_paths=4000):
+def _vars(t, acc=None, seen=None):
+    acc = set() if acc is None else acc
+    seen = set() if seen is None else seen
+    stack = [t]
+    while stack:
+        x = stack.pop()
+        if x.get_id() in seen:
+            continue
+        seen.add(x.get_id())
+        if z3.is_const(x) and x.decl().kind() == z3.Z3_OP_UNINTERPRETED:
+            acc.add(str(x))
+        stack.extend(x.children())
+    return acc
+
+
+def check_sliced(solver, pc, conds, timeout_ms=60000):
+    """pc => every cond, decided cond by cond with only the path-condition literals that share variables with it
+    (rings have disjoint coordinates, so this is the cone of influence).  -> ('unsat'|'sat'|'unknown', model, seconds, queries)"""
+    pcv = [(_vars(l), l) for l in pc]
+    total, nq = 0.0, 0
+    for c in conds:
+        if z3.is_true(z3.simplify(c)):
+            continue
+        cv = _vars(c)
+        rel = [l for v, l in pcv if v & cv]
+        solver.push()
+        solver.add(*rel)
+        solver.add(z3.Not(c))
+        solver.set('timeout', timeout_ms)
+        t = time.time()
+        r = str(solver.check())
+        total += time.time() - t
+        nq += 1
+        if r == 'sat':
+            # confirm under the full path condition (the slice may have dropped a needed literal)
+            solver.pop()
+            solver.push()
+            solver.add(*pc)
+            solver.add(z3.Not(c))
+            r2 = str(solver.check())
+            nq += 1
+            m = solver.model() if r2 == 'sat' else None
+            solver.pop()
+            if r2 == 'sat':
+                return 'sat', m, total, nq
+            if r2 != 'unsat':
+                return 'unknown', None, total, nq
+            continue
+        solver.pop()
+        if r != 'unsat':
+            return 'unknown', None, total, nq
+    return 'unsat', None, total, nq
+
+
+def trunc_stub(x):
+    """float -> integer conversion of a finite value: truncation toward zero"""
+    from pysym.values import Unsupported
+    if not x.is_plain():
+        raise Unsupported("float->int conversion of a possibly non-finite value")
+    v = x.v
+    if not z3.is_expr(v):
+        return int(v)
+    r = z3.ToReal(v) if z3.is_int(v) else v
+    return Num(z3.If(r >= 0, z3.ToInt(r), -z3.ToInt(-r)))
+
+
+def explore(polys, lead_rings=0, timeout=300, max_paths=4000, int_dtype=None):
     """polys: list of polygons, each a list of ring sizes (distinct vertices, closed by repetition; size 0 = empty
     ring).  lead_rings: number of extra rings (triangles) in front that belong to no polygon of the (sliced)
     array: they must not be touched... (they may be, the kernel treats them as holes; only in-slice rings are
@@ -47,6 +113,8 @@ def explore(polys, lead_rings=0, timeout=300, max_paths=4000):
     assumptions = [z3.And(v >= -B24, v <= B24) for v in allv]
     ex = Explorer(assumptions, max_paths=max_paths)
     it.explorer = ex
+    from pysym.core import Stub
+    it.stubs['float_to_int'] = Stub(trunc_stub, 'float -> int store: truncation toward zero (finite values)')
     f = it.func(ORI, 'orient_polygons')
     nq = 0
     viol = None
@@ -62,7 +130,8 @@ def explore(polys, lead_rings=0, timeout=300, max_paths=4000):
             for v in r:
                 flat[k], flat[k + 1] = Num(v[0]), Num(v[1])
                 k += 2
-        inp = flat.copy()
+        if int_dtype:
+            it.sdtype[id(flat)] = (flat, np.dtype(int_dtype))
         try:
             it.call(f, [flat, np.array(poly_offsets, dtype=np.uint32), np.array(ring_offsets, dtype=np.uint32)])
             n_first = ex.pos
@@ -90,20 +159,12 @@ def explore(polys, lead_rings=0, timeout=300, max_paths=4000):
             conds.append(z3.And(*[z3.And(o2[i][0] == o[i][0], o2[i][1] == o[i][1]) for i in range(len(r))]) if r else z3.BoolVal(True))
             pattern.append(bool(r) and not z3.is_true(z3.simplify(same)) )
         flips_seen.add(tuple(pattern))
-        ex.solver.push()
-        ex.solver.add(*ex.pc)
-        ex.solver.add(z3.Not(z3.And(*conds)))
-        ex.solver.set('timeout', 60000)
-        ts = time.time()
-        r_ = str(ex.solver.check())
-        ex.solver_s += time.time() - ts
-        nq += 1
+        r_, m, dt, k = check_sliced(ex.solver, ex.pc, conds)
+        ex.solver_s += dt
+        nq += k
         if r_ == 'sat':
-            m = ex.solver.model()
             viol = {'model': model_ints(m, allv)}
-            ex.solver.pop()
             break
-        ex.solver.pop()
         if r_ != 'unsat':
             return {'status': 'unknown', 'detail': 'solver unknown on a path obligation', 'paths': ex.paths}
     out = {'paths': ex.paths, 'queries': ex.checks + nq, 'solver_s': round(ex.solver_s, 2), 'encoded': it.encoded,
@@ -120,7 +181,7 @@ def explore(polys, lead_rings=0, timeout=300, max_paths=4000):
 
 
 # ------------------------------------------------------------------------------------------------ replay
-def replay(polys, lead_rings, model):
+def replay(polys, lead_rings, model, int_dtype=None):
     """real orient_polygons on the model's coordinates; exact checks with python ints"""
     from spatialpandas.geometry._algorithms.orientation import orient_polygons
     rings, shells, in_slice = [], [], []
@@ -141,7 +202,7 @@ def replay(polys, lead_rings, model):
     ring_offsets = [0]
     for r in rings:
         ring_offsets.append(ring_offsets[-1] + 2 * len(r))
-    flat = np.array([float(c) for r in rings for v in r for c in v], dtype=np.float64)
+    flat = np.array([float(c) for r in rings for v in r for c in v], dtype=np.dtype(int_dtype) if int_dtype else np.float64)
     po, ro = np.array(poly_offsets, dtype=np.uint32), np.array(ring_offsets, dtype=np.uint32)
     v1 = flat.copy()
     orient_polygons(v1, po, ro)
@@ -166,3 +227,172 @@ def replay(polys, lead_rings, model):
             problems.append(f'ring {ri}: second application changed the ring (not idempotent)')
     return bool(problems), {'rings': rings, 'poly_offsets': poly_offsets, 'ring_offsets': ring_offsets, 'after': v1.tolist(),
                             'after_twice': v2.tolist(), 'problems': problems}
+
+
+# ------------------------------------------------------------------------------------------------ wrapper level (tagged arrays)
+def oriented_task(kind, deriv, timeout=600, max_paths=3000, base=None, sort='real', dtype='float64'):
+    """PolygonArray / MultiPolygonArray.oriented() on a tagged (possibly derived) array, fork on every ring's
+    orientation; per path: rings kept or reversed (tag identity), shells ccw / holes cw when the area is non-zero,
+    part/ring counts and missing mask preserved, input untouched, second application changes nothing"""
+    from . import tagged as T
+    from .wrappers import BASE, DERIVS
+    values.set_mul_mode('exact')
+    t0 = time.time()
+    bound = B24
+    if np.dtype(dtype).kind in 'iu':
+        sort, bound = 'int', (100 if np.dtype(dtype).itemsize == 2 else 1 << 12)     # integral, representable counterexamples
+    ts = T.TagSpace(sort=sort)
+    specs = base if base is not None else BASE[kind]
+    src, _ = T.build_array(ts, kind, specs, dtype)
+    arr = DERIVS[deriv][0](src)
+    before_src = [T.element_tags(kind, src[i]) for i in range(len(src))]
+    in_tags = [T.element_tags(kind, arr[i]) for i in range(len(arr))]
+    it = ts.install(Interp())
+    from pysym.core import Stub
+    it.stubs['float_to_int'] = Stub(trunc_stub, 'float -> int store: truncation toward zero (finite values)')
+    ex = Explorer([z3.And(v >= -bound, v <= bound) for v in ts.zvars], max_paths=max_paths)
+    it.explorer = ex
+    nq = 0
+    viol = None
+    patterns = set()
+
+    def rings_of(tags):
+        if tags is None:
+            return None
+        return [r for part in tags for r in part] if kind == 'multipolygon' else list(tags)
+
+    def shell_flags(tags):
+        if kind == 'multipolygon':
+            return [i == 0 for part in tags for i, _ in enumerate(part)]
+        return [i == 0 for i, _ in enumerate(tags)]
+
+    def pts(flat):
+        return [(ts.symbol(flat[i]).v, ts.symbol(flat[i + 1]).v) for i in range(0, len(flat), 2)]
+    while ex.work:
+        if ex.paths >= max_paths or time.time() - t0 > timeout:
+            return {'status': 'unknown', 'detail': f'path/time budget exhausted after {ex.paths} paths', 'paths': ex.paths}
+        script = ex.work.pop()
+        ex.start(script)
+        try:
+            out = it.call(it.getattr_(arr, 'oriented', None, True), [])
+            out2 = it.call(it.getattr_(out, 'oriented', None, True), [])
+        except Infeasible:
+            continue
+        ex.paths += 1
+        problems = []
+        conds = []
+        if type(out) is not type(arr) or len(out) != len(arr):
+            problems.append(f'result is {type(out).__name__} of length {len(out)}')
+        else:
+            out_tags = [T.element_tags(kind, out[i]) for i in range(len(out))]
+            out2_tags = [T.element_tags(kind, out2[i]) for i in range(len(out2))]
+            flips = []
+            for j, (a, b) in enumerate(zip(in_tags, out_tags)):
+                if (a is None) != (b is None):
+                    problems.append(f'element {j}: missing flag changed')
+                    continue
+                if a is None:
+                    continue
+                if kind == 'multipolygon' and [len(p) for p in a] != [len(p) for p in b]:
+                    problems.append(f'element {j}: part/ring counts changed')
+                    continue
+                ra, rb = rings_of(a), rings_of(b)
+                if len(ra) != len(rb):
+                    problems.append(f'element {j}: ring count changed')
+                    continue
+                for k, (x, y, shell) in enumerate(zip(ra, rb, shell_flags(a))):
+                    rev = [c for i in range(len(x) - 2, -1, -2) for c in (x[i], x[i + 1])]
+                    if y != x and y != rev:
+                        problems.append(f'element {j} ring {k}: vertices changed: {x} -> {y}')
+                        continue
+                    flips.append(y != x)
+                    if len(y) >= 8:
+                        o = pts(y)
+                        area2 = shoelace2(o)
+                        conds.append(z3.Implies(area2 != 0, (area2 > 0) if shell else (area2 < 0)))
+            if out2_tags != out_tags:
+                problems.append('second application of oriented() changed the array (not idempotent)')
+            patterns.add(tuple(flips))
+        if [T.element_tags(kind, src[i]) for i in range(len(src))] != before_src:
+            problems.append('the input array was modified')
+        if problems:
+            ex.solver.push()
+            ex.solver.add(*ex.pc)
+            st = str(ex.solver.check())
+            nq += 1
+            m = ex.solver.model() if st == 'sat' else None
+            ex.solver.pop()
+            viol = {'model': model_ints(m, ts.zvars) if m is not None else {}, 'problems': problems}
+            break
+        r_, m, dt, k = check_sliced(ex.solver, ex.pc, conds)
+        ex.solver_s += dt
+        nq += k
+        if r_ == 'sat':
+            viol = {'model': model_ints(m, ts.zvars), 'problems': ['ring orientation after oriented() is wrong on this path']}
+            break
+        if r_ != 'unsat':
+            return {'status': 'unknown', 'detail': 'solver unknown on a path obligation', 'paths': ex.paths}
+    out_d = {'paths': ex.paths, 'queries': ex.checks + nq, 'solver_s': round(ex.solver_s, 2), 'encoded': it.encoded, 'formula_size': ex.paths,
+             'flip_patterns': len(patterns), 'symex_s': round(time.time() - t0 - ex.solver_s, 2), 'specs': specs}
+    if viol:
+        out_d.update(status='violated', **viol)
+        return out_d
+    if len(arr) and any(t is not None and any(len(r) >= 8 for r in rings_of(t)) for t in in_tags) and len(patterns) < 2:
+        out_d.update(status='error', detail=f'vacuity: flip patterns {patterns}')
+        return out_d
+    out_d['status'] = 'holds'
+    return out_d
+
+
+def replay_oriented(kind, deriv, model, specs=None, dtype='float64'):
+    """real oriented() on the concrete array; exact integer checks of every clause"""
+    from .wrappers import BASE, DERIVS, concrete_array
+    specs = specs or BASE[kind]
+    src = concrete_array(kind, specs, dtype, model)
+    arr = DERIVS[deriv][0](src)
+    snap = [None if src[i] is None else src[i].data.as_py() for i in range(len(src))]
+    problems = []
+    try:
+        out = arr.oriented()
+        out2 = out.oriented()
+    except Exception as e:  # noqa: BLE001
+        return True, {'kind': kind, 'derivation': deriv, 'problems': [f'oriented() raises {type(e).__name__}: {e}'],
+                      'elements': [None if arr[i] is None else arr[i].data.as_py() for i in range(len(arr))]}
+
+    def rings(e):
+        d = e.data.as_py()
+        return [(r, i == 0) for part in d for i, r in enumerate(part)] if kind == 'multipolygon' else [(r, i == 0) for i, r in enumerate(d)]
+
+    def area2(r):
+        p = [(r[i], r[i + 1]) for i in range(0, len(r), 2)]
+        return sum(p[i][0] * p[i + 1][1] - p[i + 1][0] * p[i][1] for i in range(len(p) - 1))
+    if len(out) != len(arr):
+        problems.append('length changed')
+    for j in range(min(len(out), len(arr))):
+        a, b = arr[j], out[j]
+        if (a is None) != (b is None):
+            problems.append(f'element {j}: missing flag changed')
+            continue
+        if a is None:
+            continue
+        ra, rb = rings(a), rings(b)
+        if kind == 'multipolygon' and [len(p) for p in a.data.as_py()] != [len(p) for p in b.data.as_py()]:
+            problems.append(f'element {j}: part/ring counts changed')
+        if len(ra) != len(rb):
+            problems.append(f'element {j}: ring count changed')
+            continue
+        for k, ((x, shell), (y, _)) in enumerate(zip(ra, rb)):
+            rev = [c for i in range(len(x) - 2, -1, -2) for c in (x[i], x[i + 1])]
+            if y != x and y != rev:
+                problems.append(f'element {j} ring {k}: vertices changed {x} -> {y}')
+            elif len(y) >= 8:
+                A = area2(y)
+                if A != 0 and ((A > 0) != shell):
+                    problems.append(f"element {j} ring {k} ({'shell' if shell else 'hole'}): signed area*2 = {A} after oriented()")
+    if [None if out2[i] is None else out2[i].data.as_py() for i in range(len(out2))] != [None if out[i] is None else out[i].data.as_py() for i in range(len(out))]:
+        problems.append('second application changed the array (not idempotent)')
+    if [None if src[i] is None else src[i].data.as_py() for i in range(len(src))] != snap:
+        problems.append('the input array was modified')
+    return bool(problems), {'kind': kind, 'derivation': deriv, 'problems': problems,
+                            'elements': [None if arr[i] is None else arr[i].data.as_py() for i in range(len(arr))],
+                            'oriented': [None if out[i] is None else out[i].data.as_py() for i in range(len(out))]}
